@@ -87,6 +87,7 @@ type Gor struct {
 	blockedAt int
 	blockedOnce bool
 	skipYield   bool
+	locks       []int // mutexes this goroutine holds (saved while it is not running)
 }
 
 func (g *Gor) clone() *Gor {
